@@ -253,6 +253,30 @@ func c15e2eCase(r *ev.Run, op muxOpener, g *rng.R, caseID string, caseN uint32) 
 		}
 	}
 	swg.Wait()
+	// asks on the channel nobody opened at b, back to back, right after an ask on an open channel (and once more after): whatever
+	// the destination remembers about the previous ask must not route the next one; only the handlers' oracle judges (a handler
+	// of another channel seeing the request), errors and timeouts of the asks themselves are expected
+	if sendEnds[unopened].ask != nil && len(ids) > 1 && caseN%2 == 0 {
+		seqAsk := func(i, s int, d time.Duration) {
+			pl := e2ePayload(caseN, i, 900000+s, nil)
+			mu.Lock()
+			ledger[string(pl)] = i
+			mu.Unlock()
+			actx, cf := context.WithTimeout(ctx, d)
+			n, err := sendEnds[i].ask.Ask(actx, make([]byte, 256), dst, p2p.IOVec{pl})
+			cf()
+			if err == nil && i == unopened {
+				r.Violate("C15/e2e-cross-channel/"+op.name, caseID, "an ask on a channel that is not open at the destination was answered", map[string]any{"asked_on": fmt.Sprintf("%q", fmt.Sprint(ids[i])), "n": n})
+			}
+			r.Count("e2e_sequential_asks", 1)
+		}
+		open0 := g.Intn(len(ids) - 1)
+		seqAsk(open0, 0, 2*time.Second)
+		seqAsk(unopened, 1, 40*time.Millisecond)
+		seqAsk(unopened, 2, 40*time.Millisecond)
+		seqAsk(unopened, 3, 40*time.Millisecond)
+		seqAsk(open0, 4, 2*time.Second)
+	}
 	// wait for deliveries to drain: until everything accepted was received, or quiescence
 	deadline := time.Now().Add(3 * time.Second)
 	last := received.Load()
